@@ -111,6 +111,14 @@ def check_case(case, ctx):
         if purpose == 84:
             # built directly from the parsed node with the network flag passed positionally: (master, testnet)
             st_, WO = call(lambda: cls(Pub.parse(s, testnet), testnet))
+        elif purpose == 44 and len(case["subs"]) != 2:
+            # the documented stream form, from a stream that holds several 78-byte keys back to back and whose position
+            # is at the second one (the first is the root's own public key)
+            from io import BytesIO
+            stream = BytesIO(rm.payload(v, False) + rexp.payload(v, False) + rm.payload(v, False)[:30])
+            stream.read(78)
+            st_, WO = call(lambda: cls(Pub.parse(stream, testnet), testnet))
+            ctx.count("watch-only-from-stream-at-offset")
         else:
             st_, WO = call(cls.from_extended_key, extended_key=s) if purpose == 49 else call(cls.from_extended_key, s)
         if st_ == "exc":
@@ -258,6 +266,63 @@ def check_invalid_agreement(case, ctx):
                                                   "raises" if s2 == "exc" else "returns " + k2.hex()))
 
 
+# ---------------------------------------------------------------------------------------------- several threads
+def gen_threads(tier):
+    from vlib import threads as T
+    req = st.tuples(st.lists(S.normal_indexes(), min_size=1, max_size=3), st.sampled_from(KINDS + ["xpub"]))
+    return st.fixed_dictionaries({
+        "seed": S.seeds(16, 32), "testnet": st.booleans(),
+        "export": st.lists(st.one_of(st.sampled_from([H + 84, H, H + 1, 0, 1]), S.indexes()), max_size=3),
+        "threads": st.lists(st.lists(req, min_size=1, max_size=2), min_size=2, max_size=3),
+        "plan": T.plans(max_run=8)})
+
+
+def check_threads(case, ctx):
+    """2..3 threads use ONE watch-only wallet (one public master node) at once under the deterministic scheduler: each
+    sub-path's public key, chain code, metadata and requested address / xpub must equal the reference."""
+    from vlib import threads as T
+    BaseWallet, PaperWallet, Prv, Pub = _impl()
+    testnet = case["testnet"]
+    try:
+        rexp = R.derive(R.master(case["seed"]), case["export"])
+    except R.Invalid:
+        return
+    WO = BaseWallet.from_extended_key(rexp.xpub(R.TPUB if testnet else R.XPUB))
+
+    def runner(reqs):
+        def run():
+            out = []
+            for sub, what in reqs:
+                def one():
+                    n = WO.master.derive_path(list(sub))
+                    val = n.extended_public_key() if what == "xpub" else getattr(WO, what + "_address")(n)
+                    return [n.public_key.sec(), bytes(n.chain_code), n.depth, n.index, bytes(n.parent_fingerprint), val]
+                out.append(call(one))
+            return out
+        return run
+    results, errors = T.run_scheduled(case["plan"], [runner(r) for r in case["threads"]],
+                                      T.library_files("bip32", "keys", "helper", "base_wallet", "script", "bech32"), ctx)
+    for t, reqs in enumerate(case["threads"]):
+        if t in errors:
+            raise Violation("C14/threads/crashed", "thread %d raised %r" % (t, errors[t]))
+        for (sub, what), (st_, got) in zip(reqs, results[t]):
+            try:
+                rsub = R.derive(rexp.neuter(), sub)
+            except R.Invalid:
+                continue
+            tag = "with %d threads on one watch-only wallet, sub-path %s (%s)" % (len(case["threads"]), R.fmt_path(sub, "M"), what)
+            if st_ == "exc":
+                raise Violation("C14/threads/raised", "%s raised %r" % (tag, got))
+            want = [rsub.sec(), rsub.c, rsub.depth, rsub.index, rsub.pfp]
+            if got[:5] != want:
+                raise Violation("C14/threads/public-data-differs", "%s: node is %r, the full wallet's node is %r" % (
+                    tag, [x.hex() if isinstance(x, bytes) else x for x in got[:5]], [x.hex() if isinstance(x, bytes) else x for x in want]))
+            if what == "xpub":
+                expect_eq("C14/threads/xpub", tag, got[5], rsub.xpub(R.TPUB if testnet else R.XPUB))
+            else:
+                addr_judge("C14/threads/address[%s]" % what, tag, got[5], addr_expected(rsub.pt, testnet)[what])
+
+
 def enum_deep(tier):
     for d, testnet in ((128, False), (200, True), (255 - 4, False)):
         yield {"seed": bytes([d]) * 16, "testnet": testnet, "paper": bool(d & 1),
@@ -270,6 +335,11 @@ def clauses():
                "a normal child whose (substituted) PRF output is IL in {n, n+1, 2^256-1, >= n, n - k} or valid: the watch-only "
                "wallet must raise exactly when the full wallet raises, and return the same public key otherwise",
                gen=gen_invalid, classes=lambda c: [c["kind"]], n={"quick": 400, "thorough": 20000}, shards={"quick": 8, "thorough": 16}),
+        Clause("threads", check_threads,
+               "2..3 threads derive 1..2 normal sub-paths each from ONE watch-only wallet and ask for an address kind or the "
+               "xpub, under the deterministic line-granularity scheduler; public key, chain code, depth, child number, "
+               "parent fingerprint and the string against the reference (= the full wallet); non-trivial = >= 2 switches",
+               gen=gen_threads, n={"quick": 300, "thorough": 10000}, shards={"quick": 16, "thorough": 16}),
         Clause("watch-only", check_case,
                "per case all three public versions of the network; flags (watch_only, network, no BIP85); for each "
                "sub-path: key, chain code, depth, child number, fingerprints, xpub, five addresses vs reference and vs the "
